@@ -521,6 +521,11 @@ func jsonRoundTrip(name string, v reflect.Value) ([]byte, error) {
 	if d := gen.Diff(v, p.Elem()); d != "" {
 		return enc, stats.Failf(key, "%s: unmarshal(marshal(v)) != v (after the documented normalisations): %s\n json %s", name, d, clip(enc))
 	}
+	// the parsed value owns everything in it: no element may come back marked as shared (equal in every exported field,
+	// but Move / UpdateElementProof on it panic)
+	if herr := gen.SharedMark(p.Elem()); herr != nil {
+		return enc, stats.Failf(key+"/shared-mark", "%s: %v\n json %s", name, herr, clip(enc))
+	}
 	// a revision's payout is not transmitted: the only representable value is the sentinel, and
 	// that is what a parsed revision must carry
 	var revs []reflect.Value
